@@ -176,6 +176,13 @@ func (x *Exec) initState() *State {
 		f.Regs[fv] = PtrV{Cell: c, HTy: et}
 		x.ParamVals[fv.Name()] = st.Cells[c]
 	}
+	for _, p := range x.Fn.Params {
+		if pt, ok := p.Type().Underlying().(*types.Pointer); ok {
+			if _, isStruct := pt.Elem().Underlying().(*types.Struct); isStruct {
+				x.touchEmbeddedMonitors(st, typeKey(pt.Elem()), pt.Elem(), 0)
+			}
+		}
+	}
 	x.initGhosts(st)
 	env := &Env{X: x, St: st, Old: st, Vars: x.ParamVals, OldVars: x.ParamVals, FC: x.FC, PkgPath: x.Pkg}
 	if x.FC != nil {
@@ -388,5 +395,6 @@ func (x *Exec) enterHeld(st *State, env *Env, e *Expr) {
 		st.Held[k] = TTrue
 		st.monObjs[k] = m
 		x.heldAtEntry[k] = true
+		x.heldEntryObjs = append(x.heldEntryObjs, m)
 	}
 }
